@@ -29,6 +29,9 @@ def DataFrame_left_join (truth : Term → Bool) : Out :=
 /-- the decorators of dataiter/data_frame.py: DataFrame.left_join, outermost first -/
 def DataFrame_left_join_decorators : List String := ["deco.new_from_generator"]
 
+/-- the signature of dataiter/data_frame.py: DataFrame.left_join: parameters in order, with the source text of their defaults -/
+def DataFrame_left_join_signature : List String := ["self", "other", "*by"]
+
 /-- dataiter/data_frame.py: DataFrame.inner_join (sha256 of the function source: 4dbdeabd107d4c04) -/
 def DataFrame_inner_join (truth : Term → Bool) : Out :=
   let tup0_1' : Term := (Term.app "._split_join_by" [(Term.sym "self"), (Term.app "*" [(Term.sym "by")])]);
@@ -45,6 +48,9 @@ def DataFrame_inner_join (truth : Term → Bool) : Out :=
 /-- the decorators of dataiter/data_frame.py: DataFrame.inner_join, outermost first -/
 def DataFrame_inner_join_decorators : List String := ["deco.new_from_generator"]
 
+/-- the signature of dataiter/data_frame.py: DataFrame.inner_join: parameters in order, with the source text of their defaults -/
+def DataFrame_inner_join_signature : List String := ["self", "other", "*by"]
+
 /-- dataiter/data_frame.py: DataFrame.semi_join (sha256 of the function source: d6cf60209f5136da) -/
 def DataFrame_semi_join (truth : Term → Bool) : Out :=
   let tup0_1' : Term := (Term.app "._split_join_by" [(Term.sym "self"), (Term.app "*" [(Term.sym "by")])]);
@@ -59,6 +65,9 @@ def DataFrame_semi_join (truth : Term → Bool) : Out :=
 
 /-- the decorators of dataiter/data_frame.py: DataFrame.semi_join, outermost first -/
 def DataFrame_semi_join_decorators : List String := ["deco.new_from_generator"]
+
+/-- the signature of dataiter/data_frame.py: DataFrame.semi_join: parameters in order, with the source text of their defaults -/
+def DataFrame_semi_join_signature : List String := ["self", "other", "*by"]
 
 /-- dataiter/data_frame.py: DataFrame.anti_join (sha256 of the function source: 09e57d87cbee322c) -/
 def DataFrame_anti_join (truth : Term → Bool) : Out :=
@@ -75,6 +84,9 @@ def DataFrame_anti_join (truth : Term → Bool) : Out :=
 /-- the decorators of dataiter/data_frame.py: DataFrame.anti_join, outermost first -/
 def DataFrame_anti_join_decorators : List String := ["deco.new_from_generator"]
 
+/-- the signature of dataiter/data_frame.py: DataFrame.anti_join: parameters in order, with the source text of their defaults -/
+def DataFrame_anti_join_signature : List String := ["self", "other", "*by"]
+
 /-- dataiter/data_frame.py: DataFrame._split_join_by (sha256 of the function source: 514e3228ccced4c1) -/
 def DataFrame_split_join_by (truth : Term → Bool) : Out :=
   let by1' : Term := (Term.app "ListComp" [(Term.app "ifexp" [(Term.app "isinstance" [(Term.sym "x"), (Term.sym "str")]), (Term.sym "x"), (Term.app "getitem" [(Term.sym "x"), (Term.int (0 : Int))])]), (Term.app "in" [(Term.sym "x"), (Term.sym "by"), (Term.app "if" [])])]);
@@ -83,6 +95,9 @@ def DataFrame_split_join_by (truth : Term → Bool) : Out :=
 
 /-- the decorators of dataiter/data_frame.py: DataFrame._split_join_by, outermost first -/
 def DataFrame_split_join_by_decorators : List String := []
+
+/-- the signature of dataiter/data_frame.py: DataFrame._split_join_by: parameters in order, with the source text of their defaults -/
+def DataFrame_split_join_by_signature : List String := ["self", "*by"]
 
 /-- dataiter/data_frame.py: DataFrame._get_join_indices (sha256 of the function source: 03068a1b581400ad) -/
 def DataFrame_get_join_indices (truth : Term → Bool) : Out :=
@@ -96,5 +111,8 @@ def DataFrame_get_join_indices (truth : Term → Bool) : Out :=
 
 /-- the decorators of dataiter/data_frame.py: DataFrame._get_join_indices, outermost first -/
 def DataFrame_get_join_indices_decorators : List String := []
+
+/-- the signature of dataiter/data_frame.py: DataFrame._get_join_indices: parameters in order, with the source text of their defaults -/
+def DataFrame_get_join_indices_signature : List String := ["self", "other", "by1", "by2"]
 
 end DI.Gen
